@@ -756,7 +756,22 @@ def raise_after_effect(chk, pid):
             any(h[0] == "cmp" and h[1] in ("eq", "ne", "le", "lt") for h in heads)
         about = v.ctx.mentions(ct, v.spec("factor")) if True else False
         if zero_test and about and v._must_leave_by(v.cfg.node(par[0]), "F" if par[1] == "body" else "T", v.cfg.node(first)):
-            ok = True
+            # and it must be the degeneracy test of the corners that are about to be stored
+            cs = decode_call(v.ctx, st["_pmin"][1])
+            exact = False
+            if cs and len(cs[1]) == 2:
+                a_, b_ = cs[1]
+                cond = ct if par[1] == "body" else v.ev._not(ct)
+                for text in ("not np.all(b - a)", "not np.all(a - b)", "np.any(b - a == 0)", "np.any(a - b == 0)", "np.any(a == b)",
+                             "not all(b - a)", "not np.all(b != a)", "np.any(np.isclose(a, b))"):
+                    if v.eq(cond, v.spec(text, env={"a": a_, "b": b_})):
+                        exact = True
+                # the edges are non-zero by the class invariant, so a zero component of the factor is the same event
+                for text in ("not np.all(factor)", "np.any(np.asarray(factor) == 0)", "np.any(factor == 0)", "factor == 0",
+                             "not np.all(np.asarray(factor))"):
+                    if v.eq(cond, v.spec(text)):
+                        exact = True
+            ok = ok or exact
     chk.ob("region.Region.scale::inplace::degenerate-refused", ok, f"{pid}.atomic",
            "a scale factor of zero produces zero edges: the copying form is refused by the constructor, the in-place form "
            "needs a refusal that depends on the factor / the scaled corners before it stores them", v.f, first)
@@ -809,3 +824,193 @@ def api_purity(chk, pid):
                        "; ".join(f"`{v.src(st)[:70]}` ({what}) writes {r_}" for st, what, r_ in hits[:2]) or "no write reaches self",
                        fi, hits[0][0] if hits else None, nontrivial=False)
     chk.require(n >= 120, f"{pid}.purity: only {n} methods analysed")
+
+
+# ============================================================================ refusal tables (argument validation)
+TE, VE = ("TypeError",), ("ValueError",)
+SEQ = "(tuple, list, np.ndarray)"
+REFUSALS = {
+    "region.Region.__init__": [
+        ("ordered-keyword-corners", VE, "'pmin' in kwargs and 'pmax' in kwargs and "
+                                        "not all(np.asarray(kwargs['pmin']) < np.asarray(kwargs['pmax']))"),
+        ("corner-types", TE, f"not isinstance(p1, {SEQ}) or not isinstance(p2, {SEQ})"),
+        ("corner-lengths", VE, "len(p1) != len(p2)"),
+        ("non-empty", VE, "len(p1) == 0"),
+        ("real-first-corner", TE, "not all(isinstance(i, numbers.Real) for i in p1)"),
+        ("real-second-corner", TE, "not all(isinstance(i, numbers.Real) for i in p2)"),
+        ("non-degenerate", VE, "not np.all(self.edges)"),
+    ],
+    "region.Region.scale": [
+        ("factor-type", TE, f"not isinstance(factor, numbers.Real) and not isinstance(factor, {SEQ})"),
+        ("factor-length", VE, f"not isinstance(factor, numbers.Real) and isinstance(factor, {SEQ}) and len(factor) != self.ndim"),
+        ("factor-elements", TE, f"not isinstance(factor, numbers.Real) and isinstance(factor, {SEQ}) and len(factor) == self.ndim "
+                                "and not isinstance(E, numbers.Real)"),
+        ("reference-type", TE, "reference_point is not None and not isinstance(reference_point, numbers.Real) and "
+                               f"not isinstance(reference_point, {SEQ})"),
+        ("reference-length", VE, "len(reference_point) != self.ndim"),
+        ("reference-elements", VE, "len(reference_point) == self.ndim and "
+                                   "any(not isinstance(i, numbers.Real) for i in reference_point)"),
+    ],
+    "region.Region.translate": [
+        ("vector-type", TE, f"not isinstance(vector, {SEQ})"),
+        ("vector-length", VE, f"isinstance(vector, {SEQ}) and len(vector) != self.ndim"),
+        ("vector-elements", TE, "not isinstance(E, numbers.Number)"),
+    ],
+    "region.Region.rotate90": [
+        ("distinct-axes", VE, "ax1 == ax2"),
+        ("integer-k", TE, "not isinstance(k, int)"),
+        ("reference-type", TE, f"reference_point is not None and not isinstance(reference_point, {SEQ})"),
+        ("reference-length", VE, f"reference_point is not None and isinstance(reference_point, {SEQ}) and "
+                                 "len(reference_point) != self.ndim"),
+    ],
+    "region.Region.dims.setter": [
+        ("length", VE, "D is not None and isinstance(D, (tuple, list, np.ndarray, str)) and len(dims) != self.ndim"),
+        ("strings", TE, "D is not None and isinstance(D, (tuple, list, np.ndarray, str)) and "
+                        "not all(isinstance(dim, str) for dim in dims)"),
+        ("unique", VE, "D is not None and isinstance(D, (tuple, list, np.ndarray, str)) and len(dims) != len(set(dims))"),
+        ("type", TE, "D is not None and not isinstance(D, (tuple, list, np.ndarray, str))"),
+    ],
+    "region.Region.units.setter": [
+        ("length", VE, "D is not None and isinstance(D, (tuple, list, np.ndarray, str)) and len(units) != self.ndim"),
+        ("strings", TE, "D is not None and isinstance(D, (tuple, list, np.ndarray, str)) and "
+                        "not all(isinstance(unit, str) for unit in units)"),
+        ("type", TE, "D is not None and not isinstance(D, (tuple, list, np.ndarray, str))"),
+    ],
+}
+
+
+def refusal_table(chk, pid, quals=None):
+    """Every documented refusal is present: for each table row there is a `raise` of the listed type that is reached exactly
+    under the row's condition (path condition of the raise statement, decided as a predicate over type tests, None tests
+    and comparisons).  `E` stands for the element of the enclosing loop, `D` for the setter's argument as passed."""
+    from ..lib import cond_equiv, path_term
+    repo = chk.repo
+    chk.rule(f"{pid}.refusals", "malformed arguments are refused: each documented refusal (type, length, element type, ordering, "
+                                "degeneracy) is a raise reached exactly under its condition; an inverted or weakened test "
+                                "either lets malformed input through or refuses well-formed input")
+    for q, rows in REFUSALS.items():
+        if quals is not None and q not in quals:
+            continue
+        v = FV(repo, q)
+        raises = v.raises()
+        pname = v.f.node.args.args[1].arg if len(v.f.node.args.args) > 1 else None
+        for key, exc, text in rows:
+            hit = None
+            seen = []
+            for r, name in raises:
+                if name not in exc:
+                    continue
+                par = v.cfg.parent.get(id(r))
+                at = par[0] if par else r
+                env = {}
+                for p_, f_ in v.cfg.enclosing(r):
+                    if isinstance(p_, ast.For) and "E" not in env:
+                        env["E"] = v.ctx.mk(("iter", ()), (v.term(p_.iter, at=p_),))
+                if pname:
+                    env["D"] = v.ev._sym(f"param:{pname}")
+                if " E" in text and "E" not in env:
+                    continue
+                try:
+                    want = v.spec(text, at=at, env=env)
+                except AnalysisError:
+                    continue
+                pt = path_term(v, r)
+                seen.append(v.show(pt)[:120])
+                if cond_equiv(v, pt, want):
+                    hit = r
+                    break
+            chk.ob(f"{q}::refuses::{key}", hit is not None, f"{pid}.refusals",
+                   f"no `raise {'/'.join(exc)}` reached exactly under `{text}`; raises of that type are reached under: {seen[:4]}",
+                   v.f, hit)
+
+
+DEFAULTS = {
+    # function: [(key, value expression, condition under which that value replaces the argument)]
+    "region.Region.__init__": [
+        ("scalar-first-corner", "[p1]", "isinstance(p1, numbers.Real)"),
+        ("scalar-second-corner", "[p2]", "isinstance(p2, numbers.Real)"),
+    ],
+    "region.Region.scale": [
+        ("reference-defaults-to-centre", "self.center", "D2 is None"),
+        ("scalar-reference", "[D2]", "D2 is not None and isinstance(D2, numbers.Real)"),
+    ],
+    "region.Region.translate": [
+        ("scalar-vector", "[D]", "isinstance(D, numbers.Real)"),
+    ],
+    "region.Region.rotate90": [
+        ("reference-defaults-to-centre", "self.center", "reference_point is None"),
+    ],
+    "region.Region.units.setter": [
+        ("default-metres", "['m'] * self.ndim", "D is None"),
+        ("single-unit", "[D]", "D is not None and isinstance(D, (tuple, list, np.ndarray, str)) and isinstance(D, str)"),
+    ],
+    "region.Region.dims.setter": [
+        ("single-name", "[D]", "D is not None and isinstance(D, (tuple, list, np.ndarray, str)) and isinstance(D, str)"),
+    ],
+}
+
+
+def defaults_table(chk, pid, quals=None):
+    """argument normalisation: each replacement value is assigned exactly under its condition"""
+    from ..lib import cond_equiv, cond_implies, path_term
+    repo = chk.repo
+    chk.rule(f"{pid}.defaults", "argument normalisation happens exactly when documented: None selects the default (centre, metres), "
+                                "a bare number/string is wrapped for one-dimensional use; an inverted test replaces a given "
+                                "argument by the default or hands None to the arithmetic")
+    for q, rows in DEFAULTS.items():
+        if quals is not None and q not in quals:
+            continue
+        v = FV(repo, q)
+        args = [a.arg for a in v.f.node.args.args]
+        env0 = {}
+        if len(args) > 1:
+            env0["D"] = v.ev._sym(f"param:{args[1]}")
+        if len(args) > 2:
+            env0["D2"] = v.ev._sym(f"param:{args[2]}")
+        for key, valtext, condtext in rows:
+            hits = []
+            for st in v.stmts():
+                if isinstance(st, ast.Assign) and len(st.targets) == 1 and isinstance(st.targets[0], ast.Name):
+                    try:
+                        want_v = v.spec(valtext, at=st, env=env0)
+                    except AnalysisError:
+                        continue
+                    if v.eq(v.term(st.value, at=st), want_v):
+                        hits.append(st)
+            if not hits:
+                chk.ob(f"{q}::normalises::{key}", False, f"{pid}.defaults", f"no assignment of `{valtext}` found", v.f)
+                continue
+            for st in hits:
+                pt = path_term(v, st)
+                want = v.spec(condtext, at=st, env=env0)
+                chk.ob(f"{q}::normalises::{key}", cond_equiv(v, pt, want), f"{pid}.defaults",
+                       f"`{v.src(st)}` happens under {v.show(pt)[:160]}; expected exactly under `{condtext}`", v.f, st)
+    if quals is not None:
+        return
+    # default dimension names have as many entries as the region has dimensions
+    v = FV(repo, "region.Region.dims.setter")
+    nd = v.spec("self.ndim")
+    for st in v.stmts():
+        if isinstance(st, ast.Assign) and len(st.targets) == 1 and isinstance(st.targets[0], ast.Name):
+            t = v.term(st.value, at=st)
+            pt = path_term(v, st)
+            if v.eq(t, v.spec("['x', 'y', 'z'][: self.ndim]")):
+                ok = cond_implies(v, pt, v.spec("self.ndim <= 3"), [nd]) and cond_implies(v, pt, v.spec("D is None", env={"D": v.ev._sym("param:dims")}), [nd])
+                chk.ob("region.Region.dims.setter::default-names-cover-all-dimensions", ok, f"{pid}.defaults",
+                       f"x, y, z (cut to ndim) are used under {v.show(pt)}: only regions with at most three dimensions get as "
+                       "many names as dimensions this way", v.f, st)
+    # keyword corners feed the ordinary path in the right roles
+    v = FV(repo, "region.Region.__init__")
+    st = _store_terms(v)
+    for slot, fn, mine, other in (("_pmin", "np.minimum", "pmin", "pmax"), ("_pmax", "np.maximum", "pmin", "pmax")):
+        c = decode_call(v.ctx, st[slot][1])
+        ok = False
+        if c and c[0] == fn and len(c[1]) == 2:
+            m1 = phi_members(v.ctx, c[1][0])
+            m2 = phi_members(v.ctx, c[1][1])
+            k1, k2 = v.spec("kwargs['pmin']"), v.spec("kwargs['pmax']")
+            has1 = {(any(v.eq(m, k1) for m in mm), any(v.eq(m, k2) for m in mm)) for mm in (m1,)}
+            has2 = {(any(v.eq(m, k1) for m in mm), any(v.eq(m, k2) for m in mm)) for mm in (m2,)}
+            ok = (has1 == {(True, False)} and has2 == {(False, True)}) or (has1 == {(False, True)} and has2 == {(True, False)})
+        chk.ob(f"region.Region.__init__::store::{slot}::keyword-corners", ok, f"{pid}.defaults",
+               f"{slot} = {v.show(st[slot][1])[:200]}: the keyword corners pmin and pmax must each reach one operand", v.f, st[slot][0])
